@@ -5,7 +5,7 @@
 import LzmaProofs.Lemmas.Monad
 namespace Lzma
 
-@[simp] theorem liftE_pure_run {α : Type} (a : α) (s : Sink) :
+theorem StreamBasic.liftE_pure_run {α : Type} (a : α) (s : Sink) :
     (liftE (pure a : Except Err α) : M α) s = (s, .ok a) := rfl
 
 /-! ## `processLoop` stops at once when the unpacked size is reached -/
@@ -15,7 +15,7 @@ theorem DState.processLoop_size_reached {ω : Type} [LzBuf ω] (mode : DState.Mo
     (hn : s.unpackedSize = some n) (hlen : LzBuf.len w ≥ n) :
     DState.processLoop mode (fuel + 1) s w rc rd snk = (snk, .ok (s, w, rc, rd)) := by
   unfold DState.processLoop
-  simp [hn, hlen, bind_run]
+  simp [hn, hlen, bind_run, StreamBasic.liftE_pure_run]
 
 theorem DState.loopFuel_succ (s : DState) (rd : Rd) :
     ∃ k, DState.loopFuel s rd = k + 1 := ⟨_, rfl⟩
